@@ -1385,3 +1385,105 @@ package quic
 //@   ensures [stale-limit-wakes-nobody] implies(limit <= old(fc.sendWindow), called("(quic.streamSender).onHasStreamData") == 0)
 //@   ensures [raised-limit-wakes-a-stream-with-data] implies(limit > old(fc.sendWindow), called("(quic.streamSender).onHasStreamData") == ite(s.dataForWriting != nil || s.nextFrame != nil, 1, 0))
 //@   modifies fc.sendWindow
+
+// ---------------- removing header protection before the AEAD sees the packet (C05) ----------------
+// RFC 9001 5.4.2: the sample is the 16 bytes starting 4 bytes after the start of the packet number field; the mask is
+// applied to the first byte and to 4 packet-number bytes; once the real packet-number length is known, the bytes that were
+// unmasked although they belong to the payload are put back EXACTLY as received, because the AEAD authenticates them.
+//@ iface (hd quic.headerDecryptor) DecryptHeader
+//@   modifies *firstByte, pnBytes[:len(pnBytes)]
+//@ func (u *packetUnpacker) unpackShortHeader
+//@   props C05
+//@   arith bv
+//@   requires 0 <= u.shortHdrConnIDLen && u.shortHdrConnIDLen <= 20 && len(data) <= 1099511627776 && hd != nil
+//@   let hl = 1 + u.shortHdrConnIDLen
+//@   ensures [too-short-for-a-sample] implies(len(data) < hl + 20, result4 != nil && called("(quic.headerDecryptor).DecryptHeader") == 0)
+//@   ensures [sample-is-16-bytes-4-after-the-packet-number-start] implies(len(data) >= hl + 20, called("(quic.headerDecryptor).DecryptHeader") == 1 && alias(callarg("(quic.headerDecryptor).DecryptHeader", 0, 1), data, hl + 4) && len(callarg("(quic.headerDecryptor).DecryptHeader", 0, 1)) == 16 && alias(callarg("(quic.headerDecryptor).DecryptHeader", 0, 3), data, hl) && len(callarg("(quic.headerDecryptor).DecryptHeader", 0, 3)) == 4)
+//@   ensures [payload-bytes-restored] implies(len(data) >= hl + 20 && result4 == nil, forall(k, hl + int(result2), hl + 4, data[k] == old(data[k])))
+//@   ensures [beyond-the-packet-number-field-untouched] forall(k, hl + 4, len(data), data[k] == old(data[k]))
+//@   unclaimed safe:slice:5 on the ErrInvalidReservedBits path the packet-number length is valid only because that particular error is returned together with a parsed header; the identity of package-level error variables is not modelled
+//@   modifies data[:]
+//@ func unpackLongHeader
+//@   props C05
+//@   arith bv
+//@   requires hdr != nil && 0 <= hdr.parsedLen && hdr.parsedLen <= 1048576 && len(data) <= 1099511627776 && hd != nil
+//@   let hl = int(hdr.parsedLen)
+//@   ensures [too-short-for-a-sample] implies(len(data) < hl + 20, result1 != nil && result0 == nil && called("(quic.headerDecryptor).DecryptHeader") == 0)
+//@   ensures [sample-is-16-bytes-4-after-the-packet-number-start] implies(len(data) >= hl + 20, called("(quic.headerDecryptor).DecryptHeader") == 1 && alias(callarg("(quic.headerDecryptor).DecryptHeader", 0, 1), data, hl + 4) && len(callarg("(quic.headerDecryptor).DecryptHeader", 0, 1)) == 16 && alias(callarg("(quic.headerDecryptor).DecryptHeader", 0, 3), data, hl) && len(callarg("(quic.headerDecryptor).DecryptHeader", 0, 3)) == 4)
+//@   ensures [payload-bytes-restored] implies(result0 != nil, forall(k, hl + int(result0.PacketNumberLen), hl + 4, data[k] == old(data[k])))
+//@   ensures [beyond-the-packet-number-field-untouched] forall(k, hl + 4, len(data), data[k] == old(data[k]))
+//@   ensures [header-or-error] implies(result0 == nil, result1 != nil)
+//@   ensures [parsed-length] implies(result0 != nil, 1 <= result0.PacketNumberLen && result0.PacketNumberLen <= 4 && result0.parsedLen == hdr.parsedLen + int64(result0.PacketNumberLen) && result0.parsedLen <= len(data))
+//@   modifies data[:]
+
+// ---------------- unpacking: the AEAD decides, and it sees exactly header || rest (C05) ----------------
+//@ iface (o handshake.LongHeaderOpener) DecodePacketNumber
+//@   modifies nothing
+//@ iface (o handshake.LongHeaderOpener) Open
+//@   modifies dst[:]
+//@ iface (o handshake.LongHeaderOpener) DecryptHeader
+//@   modifies *firstByte, pnBytes[:len(pnBytes)]
+//@ iface (o handshake.ShortHeaderOpener) DecodePacketNumber
+//@   modifies nothing
+//@ iface (o handshake.ShortHeaderOpener) Open
+//@   modifies dst[:]
+//@ iface (o handshake.ShortHeaderOpener) DecryptHeader
+//@   modifies *firstByte, pnBytes[:len(pnBytes)]
+//@ func (u *packetUnpacker) unpackLongHeader
+//@   props C05
+//@   requires hdr != nil && 0 <= hdr.parsedLen && hdr.parsedLen <= 1048576 && len(data) <= 1099511627776 && hd != nil
+//@   ensures [header-or-error] implies(result0 == nil, result1 != nil)
+//@   ensures [parsed-length] implies(result0 != nil, 1 <= result0.PacketNumberLen && result0.PacketNumberLen <= 4 && result0.parsedLen == hdr.parsedLen + int64(result0.PacketNumberLen) && result0.parsedLen <= len(data))
+//@   modifies data[:]
+//@ func (u *packetUnpacker) unpackLongHeaderPacket
+//@   props C05
+//@   requires hdr != nil && 0 <= hdr.parsedLen && hdr.parsedLen <= 1048576 && len(data) <= 1099511627776 && opener != nil
+//@   let opened = called("(handshake.LongHeaderOpener).Open") == 1
+//@   let hl = lastresult("(*ExtendedHeader).ParsedLen")
+//@   ensures [unparsable-header-never-reaches-the-aead] implies(lastresult("(*packetUnpacker).unpackLongHeader", 0) == nil, result0 == nil && len(result1) == 0 && result2 != nil && called("(handshake.LongHeaderOpener).Open") == 0)
+//@   ensures [aead-gets-header-as-associated-data-and-the-rest-as-ciphertext] implies(opened, alias(callarg("(handshake.LongHeaderOpener).Open", 0, 4), data, 0) && len(callarg("(handshake.LongHeaderOpener).Open", 0, 4)) == hl && alias(callarg("(handshake.LongHeaderOpener).Open", 0, 2), data, hl) && len(callarg("(handshake.LongHeaderOpener).Open", 0, 2)) == len(data) - hl && alias(callarg("(handshake.LongHeaderOpener).Open", 0, 1), data, hl))
+//@   ensures [packet-number-decoded-by-the-opener] implies(opened, called("(handshake.LongHeaderOpener).DecodePacketNumber") == 1 && callarg("(handshake.LongHeaderOpener).Open", 0, 3) == lastresult("(handshake.LongHeaderOpener).DecodePacketNumber"))
+//@   ensures [authentication-failure-returns-nothing] implies(opened && lastresult("(handshake.LongHeaderOpener).Open", 1) != nil, result0 == nil && len(result1) == 0 && result2 != nil)
+//@   ensures [nothing-without-the-aead] implies(result2 == nil, opened && lastresult("(handshake.LongHeaderOpener).Open", 1) == nil && result0 != nil)
+//@   modifies data[:], heap(wire.ExtendedHeader.PacketNumber)
+//@ iface (cs handshake.CryptoSetup) GetInitialOpener
+//@   ensures [opener-or-error] implies(result1 == nil, result0 != nil)
+//@   modifies nothing
+//@ iface (cs handshake.CryptoSetup) GetHandshakeOpener
+//@   ensures [opener-or-error] implies(result1 == nil, result0 != nil)
+//@   modifies nothing
+//@ iface (cs handshake.CryptoSetup) Get0RTTOpener
+//@   ensures [opener-or-error] implies(result1 == nil, result0 != nil)
+//@   modifies nothing
+//@ iface (cs handshake.CryptoSetup) Get1RTTOpener
+//@   ensures [opener-or-error] implies(result1 == nil, result0 != nil)
+//@   modifies nothing
+//@ func (u *packetUnpacker) UnpackLongHeader
+//@   props C05
+//@   requires hdr != nil && 0 <= hdr.parsedLen && hdr.parsedLen <= 1048576 && len(data) <= 1099511627776 && u.cs != nil
+//@   ensures [keys-of-the-packets-own-level] implies(result1 == nil, result0 != nil && result0.encryptionLevel == ite(hdr.Type == protocol.PacketTypeInitial, protocol.EncryptionInitial, ite(hdr.Type == protocol.PacketTypeHandshake, protocol.EncryptionHandshake, protocol.Encryption0RTT)) && called("(*packetUnpacker).unpackLongHeaderPacket") == 1)
+//@   ensures [only-initial-handshake-0rtt] implies(hdr.Type != protocol.PacketTypeInitial && hdr.Type != protocol.PacketTypeHandshake && hdr.Type != protocol.PacketType0RTT, result1 != nil && result0 == nil && called("(*packetUnpacker).unpackLongHeaderPacket") == 0)
+//@   ensures [opener-of-the-right-level] called("(handshake.CryptoSetup).GetInitialOpener") == ite(hdr.Type == protocol.PacketTypeInitial, 1, 0) && called("(handshake.CryptoSetup).GetHandshakeOpener") == ite(hdr.Type == protocol.PacketTypeHandshake, 1, 0) && called("(handshake.CryptoSetup).Get0RTTOpener") == ite(hdr.Type == protocol.PacketType0RTT, 1, 0)
+//@   ensures [empty-packet-is-a-protocol-violation] implies(result1 == nil, len(result0.data) > 0)
+//@   ensures [no-packet-on-error] implies(result1 != nil, result0 == nil)
+//@   modifies data[:], heap(wire.ExtendedHeader.PacketNumber)
+//@ func (u *packetUnpacker) unpackShortHeaderPacket
+//@   props C05
+//@   requires 0 <= u.shortHdrConnIDLen && u.shortHdrConnIDLen <= 20 && len(data) <= 1099511627776 && opener != nil
+//@   let opened = called("(handshake.ShortHeaderOpener).Open") == 1
+//@   let hl = lastresult("(*packetUnpacker).unpackShortHeader", 0)
+//@   ensures [aead-gets-header-as-associated-data-and-the-rest-as-ciphertext] implies(opened, alias(callarg("(handshake.ShortHeaderOpener).Open", 0, 6), data, 0) && len(callarg("(handshake.ShortHeaderOpener).Open", 0, 6)) == hl && alias(callarg("(handshake.ShortHeaderOpener).Open", 0, 2), data, hl) && len(callarg("(handshake.ShortHeaderOpener).Open", 0, 2)) == len(data) - hl)
+//@   ensures [packet-number-decoded-by-the-opener] implies(opened, called("(handshake.ShortHeaderOpener).DecodePacketNumber") == 1 && callarg("(handshake.ShortHeaderOpener).Open", 0, 4) == lastresult("(handshake.ShortHeaderOpener).DecodePacketNumber"))
+//@   ensures [authentication-failure-returns-nothing] implies(opened && lastresult("(handshake.ShortHeaderOpener).Open", 1) != nil, len(result3) == 0 && result4 != nil)
+//@   ensures [nothing-without-the-aead] implies(result4 == nil, opened && lastresult("(handshake.ShortHeaderOpener).Open", 1) == nil)
+//@   unclaimed safe:slice:0 on the ErrInvalidReservedBits path the header length is valid only because that particular error is returned together with a parsed header; the identity of package-level error variables is not modelled
+//@   unclaimed safe:slice:1 same
+//@   unclaimed safe:slice:2 same
+//@   modifies data[:]
+//@ func (u *packetUnpacker) UnpackShortHeader
+//@   props C05
+//@   requires 0 <= u.shortHdrConnIDLen && u.shortHdrConnIDLen <= 20 && len(data) <= 1099511627776 && u.cs != nil
+//@   ensures [one-rtt-keys] called("(handshake.CryptoSetup).Get1RTTOpener") == 1
+//@   ensures [empty-packet-is-a-protocol-violation] implies(result4 == nil, len(result3) > 0)
+//@   ensures [nothing-on-error] implies(result4 != nil, result0 == 0 && result1 == 0 && result2 == 0 && len(result3) == 0)
+//@   modifies data[:]
